@@ -348,14 +348,35 @@ class Classifier:
             cands = [cn.ast]
             if isinstance(cn.ast, ast.Name):
                 cands = [r for r, _, _ in g.origins(cn.ast, cn.id)]
+            more: List[Tuple[ast.AST, str]] = []
             for a in cands:
+                # the test may live in a helper predicate: f(cont, ...) whose every return is a conjunction containing it
+                if isinstance(a, ast.Call):
+                    callee = self.repo.resolve_callee(fi, a)
+                    if callee is not None and callee.fq.startswith("monkeytype."):
+                        from mtsa.index import bind_args
+                        b = bind_args(callee, a, skip_self=callee.cls is not None)
+                        pname = next((k for k, v in b.items() if dotted(v) == cont and not k.startswith("*")), None)
+                        rets = [x.value for x in walk_no_nested(callee.node) if isinstance(x, ast.Return)]
+                        if pname is not None and rets and all(r is not None for r in rets):
+                            conj = []
+                            okc = True
+                            for r in rets:
+                                parts = r.values if isinstance(r, ast.BoolOp) and isinstance(r.op, ast.And) else [r]
+                                hit = [p_ for p_ in parts if is_call_to(p_, "all")]
+                                if not hit:
+                                    okc = False
+                                conj.extend(hit)
+                            if okc:
+                                more.extend((h, pname) for h in conj)
+            for a, cont_here in [(a, cont) for a in cands] + more:
                 if is_call_to(a, "all") and a.args and isinstance(a.args[0], (ast.GeneratorExp, ast.ListComp)):
                     ge = a.args[0]
                     gen = ge.generators[0]
                     if gen.ifs or len(ge.generators) != 1:
                         continue
                     src = gen.iter
-                    if isinstance(src, ast.Call) and isinstance(src.func, ast.Attribute) and src.func.attr == "keys" and dotted(src.func.value) == cont or dotted(src) == cont:
+                    if isinstance(src, ast.Call) and isinstance(src.func, ast.Attribute) and src.func.attr == "keys" and dotted(src.func.value) == cont_here or dotted(src) == cont_here:
                         e = ge.elt
                         if is_call_to(e, "issubclass") and len(e.args) == 2 and is_call_to(e.args[0], "type") and dotted(e.args[0].args[0]) == dotted(gen.target) and all(c in BUILTIN_SCALAR_CLASSES for c in self._class_names(e.args[1])):
                             return True
@@ -418,9 +439,15 @@ def rule_containment(ctx: Ctx, repo: Repo) -> None:
         if inside_handler or d == "self.should_trace":
             continue
         n_calls += 1
-        ctx.check(id(c) in guarded, "R-C03.2", fi.fq,
+        if id(c) in guarded:
+            ctx.ok("R-C03.2", fi.fq, f"`{norm(c)[:60]}` is under the catch-all handler")
+            continue
+        # outside the handler: allowed only if nothing but the code filter can run there (a helper that evaluates the
+        # gate condition), followed through package callees
+        bad = [(bfi, bc) for bfi, bc in _uncontained_calls(repo, fi, [c]) if (dotted(bc.func) or "") != "self.should_trace"]
+        ctx.check(not bad, "R-C03.2", fi.fq,
                   "every call the profile function makes (other than the code filter) is under a catch-all handler",
-                  construct=norm(c), node=c)
+                  construct=norm(c) + ("" if not bad else f" -> {norm(bad[0][1])[:60]} in {bad[0][0].qualname}"), node=c)
     ctx.floor("R-C03.2", "calls made by __call__ besides the code filter", n_calls, 2)
     for name in ("handle_call", "handle_return"):
         cs = [c for c in calls_in(fi.node) if isinstance(c.func, ast.Attribute) and c.func.attr == name]
